@@ -13,14 +13,14 @@ Local Open Scope nat_scope.
    runs of any length. *)
 Definition C08_full_statement : Prop :=
   forall s vectorize depth T dt W inputs x0,
-    forallb (input_ok vectorize (rnd (T / dt))) inputs = true -> rows_fit T dt dt = true -> frame_ok T dt (length x0) = true ->
+    forallb (input_ok vectorize (rnd (T / dt))) inputs = true -> rows_fit T dt dt = true -> frame_ok T dt = true ->
     run_inputs s vectorize depth T dt W inputs x0 = Rows (spec_run_inputs s T dt W inputs x0).
 
 (* -------- whole runs -------- *)
 (* guards: inputs_guard = depth_ok (depth < 2 or no inputs) + every input in an accepted form, long enough, target
    list without repetition; rows_fit / frame_ok are C03's guards (here dts = dt) *)
 Theorem C08_run_partial : forall s vectorize depth T dt W inputs x0,
-  inputs_guard vectorize depth T dt inputs = true -> rows_fit T dt dt = true -> frame_ok T dt (length x0) = true ->
+  inputs_guard vectorize depth T dt inputs = true -> rows_fit T dt dt = true -> frame_ok T dt = true ->
   run_inputs s vectorize depth T dt W inputs x0 = Rows (spec_run_inputs s T dt W inputs x0).
 Proof. exact run_inputs_partial. Qed.
 Print Assumptions C08_run_partial.
